@@ -5,7 +5,7 @@ PROPERTY = 'C12'
 ASSUMPTIONS = ['network value built by netbuild (equal to Network::new by C17)', 'activity durations >= 1 s (documented validity)',
                'pre-states are produced by the real constructors Tour::new / Tour::new_dummy / Path::new executed symbolically',
                'segments consist of non-depot nodes (Segment documentation)']
-BOUNDS = {'quick': 'tours with <= 2 activities (service/maintenance, dummy and real, real or overflow depots), paths with <= 2 nodes with/without leading/trailing depot, tour+path <= 3 activities, 2 locations, all times/locations/dead-heads/shunting symbolic',
+BOUNDS = {'quick': 'tours with <= 2 activities (service/maintenance, dummy and real, real or overflow depots; removals also on real and dummy tours with 3 activities), paths with <= 2 nodes with/without leading/trailing depot, tour+path <= 3 activities, 2 locations, all times/locations/dead-heads/shunting symbolic',
           'thorough': 'tours with <= 4 activities, paths <= 2 nodes, tour+path <= 5 activities, times over a day'}
 OUTSIDE = 'larger tours/paths; the random half of the quantifier (sampling is not this technique)'
 REQUIRED_COVERS = {'quick': ['insert: conflict removed', 'remove: accepted', 'remove: refused'], 'thorough': ['insert: conflict removed', 'remove: accepted', 'remove: refused']}
